@@ -25,6 +25,7 @@ type Dep struct {
 	Constr  string   // union constraint
 	StrIf   string   // method constraint: interface{ String() string }
 	Extra   []string // further plain named types (std)
+	Fixed    bool    // part of every tree (used by a fixed interface)
 	GenAlias string  // generic alias over an unnamed type: type List[E any] = []E
 	Transient *Dep   // Embed mentions types of this package
 	Transients []*Dep // further packages the Embed interface mentions inside one func type (same-named ones preferred)
@@ -367,8 +368,12 @@ func (b *builder) makeDeps() {
 		if b.chance(b.prof.Aliases) {
 			d.SrcAlias = b.pick([]string{name + "x", "my" + name, "p" + uid, name + "2", "s", "err", "ctx", "n", "v1"})
 			// an alias equal to the last path element while the package name differs (v2 ".../lib/v2", foo_impl)
-			if base := dir[strings.LastIndex(dir, "/")+1:]; base != name && isIdent(base) && b.chance(0.4) {
+			if base := dir[strings.LastIndex(dir, "/")+1:]; base != name && isIdent(base) && base == strings.ToLower(base) && b.chance(0.4) {
 				d.SrcAlias = base
+			}
+			// an alias that merely repeats the package's own name (thing ".../thing_impl")
+			if b.chance(0.12) {
+				d.SrcAlias = name
 			}
 			// an alias that is another dependency's package name (the other one imported bare in another file)
 			if len(names) > 1 && b.chance(0.2) {
@@ -384,9 +389,16 @@ func (b *builder) makeDeps() {
 			}
 		}
 		t.Deps = append(t.Deps, d)
-		if assumedName(d.Path) != d.Name {
+		if assumedName(d.Path) != d.Name && (d.SrcAlias == "" || d.SrcAlias == ".") {
 			t.NameMismatch = true
 		}
+	}
+	if !b.prof.Cluster && !strings.HasPrefix(b.prof.Name, "matrix") {
+		// a package whose name differs from its directory, imported by the source under an alias that merely repeats
+		// the package's own name
+		uid := b.nextUID()
+		t.Deps = append(t.Deps, &Dep{Path: t.ModPath + "/fx/thing_impl", Dir: "fx/thing_impl", Name: "thing", UID: uid, SrcAlias: "thing", Fixed: true,
+			Struct: "Widget", Ifaces: []string{"Iface"}, Embed: "Emb" + uid, EmbedMethods: []string{"Em" + uid}, Func: "Func", Gen: "Gen", Num: "Num", Constr: "Constr", StrIf: "Str", GenAlias: "List"})
 	}
 	b.genAliases = map[string]bool{}
 	for _, d := range t.Deps {
@@ -576,7 +588,7 @@ func (b *builder) render() {
 				switch {
 				case d.SrcAlias == ".":
 					fmt.Fprintf(&s, "\t. %q\n", d.Path)
-				case quals[d] != d.Name:
+				case quals[d] != d.Name || d.SrcAlias == d.Name:
 					fmt.Fprintf(&s, "\t%s %q\n", quals[d], d.Path)
 				default:
 					fmt.Fprintf(&s, "\t%q\n", d.Path)
@@ -674,6 +686,9 @@ func renderParams(ps []Param, variadic bool, q Qual) string {
 	}
 	return strings.Join(out, ", ")
 }
+
+// AssumedName is the exported form of assumedName.
+func AssumedName(importPath string) string { return assumedName(importPath) }
 
 // assumedName mirrors how goimports guesses a package name from an import path when it cannot load it.
 func assumedName(importPath string) string {
